@@ -72,6 +72,8 @@ theorem fci_cancelTimer_other (s : Stack) (own : Cb → Bool) (t : Option Nat) (
 @[simp] theorem fci_with_outgoing_sendLog (s : Stack) (x : Outgoing) (y : List (Dest × (Bool × Nat))) : fci { s with outgoing := x, sendLog := y } = fci s := rfl
 @[simp] theorem fci_with_findLog (s : Stack) (x : List (Nat × Nat)) : fci { s with findLog := x } = fci s := rfl
 @[simp] theorem fci_with_findMarks (s : Stack) (x : List (Nat × Nat)) : fci { s with findMarks := x } = fci s := rfl
+@[simp] theorem fci_with_ansLog (s : Stack) (x : List (Nat × Addr × Nat × Nat)) : fci { s with ansLog := x } = fci s := rfl
+@[simp] theorem fci_logAnswer (s : Stack) (i : Nat) (a : Addr) (d : Nat) : fci (s.logAnswer i a d) = fci s := rfl
 @[simp] theorem fci_markFind (s : Stack) (n : Nat) : fci (s.markFind n) = fci s := rfl
 @[simp] theorem fci_with_offLog (s : Stack) (x : List (Nat × OEv × Nat)) : fci { s with offLog := x } = fci s := rfl
 @[simp] theorem fci_logOffer (s : Stack) (i : Nat) (e : OEv) : fci (s.logOffer i e) = fci s := rfl
